@@ -704,8 +704,10 @@ Proof.
         destruct Hb as [Hb|Hb]; [exfalso; apply Hb; reflexivity | discriminate Hb].
       + injection D as <- <-. cbn [set_heap del_id heap numfiles t0]. lia. }
   destruct e as [o|o|id|id|id|id]; cbn [step1] in St.
-  - destruct (do_create _ t o) as [t2 r2] eqn:D. injection St as <- <-. eapply DC; eauto. tauto.
-  - destruct (do_create _ t o) as [t2 r2] eqn:D. injection St as <- <-. eapply DC; eauto. tauto.
+  - destruct (do_create _ t o) as [t2 r2] eqn:D. injection St as <- <-. eapply DC; [exact D|].
+    destruct Hc as [Hc|[Hc1 Hc2]]; [left; exact Hc | right; assumption].
+  - destruct (do_create _ t o) as [t2 r2] eqn:D. injection St as <- <-. eapply DC; [exact D|].
+    destruct Hc as [Hc|[Hc1 Hc2]]; [left; exact Hc | right; assumption].
   - unfold with_id in St. destruct (check_id t id) as [|[f|]] eqn:C; try discriminate; injection St as <- <-; [reflexivity|].
     cbn [set_heap del_id heap numfiles]. destruct (check_id_honest _ _ _ C) as [R E].
     pose proof (count_occ_set_none _ _ _ (eq_sym E)). lia.
@@ -726,8 +728,9 @@ Proof.
   cbn [step] in *. destruct (step1 check_id t e) as [[t1|] r1] eqn:St; cbn [fst snd] in *; [|rewrite run_none in H; discriminate].
   assert (I1 : Inv t1) by (eapply step1_inv; eauto using check_id_honest).
   assert (S1 : Z.of_nat (heap t1) - numfiles t1 = Z.of_nat (heap t) - numfiles t).
-  { eapply heap_step; eauto. destruct Hc as [Hc|Hc]; [left; now inversion Hc | right; exact Hc]. }
-  rewrite <- S1. apply IH; auto; [lia|].
+  { eapply heap_step; [exact I | exact G | exact St |].
+    destruct Hc as [Hc|Hc]; [left; now inversion Hc | right; exact Hc]. }
+  rewrite <- S1. apply IH; [exact I1 | lia | exact H |].
   destruct Hc as [Hc|Hc]; [left; now inversion Hc | right; exact Hc].
 Qed.
 
